@@ -16,8 +16,11 @@ class Done(Exception):
 
 
 class Scheduler:
-    def __init__(self, rec):
+    def __init__(self, rec, post_yield=False):
         self.rec = rec
+        # also yield right after a COMMIT / ROLLBACK returned (only for runs judged by call/return
+        # times: checks that read the order of events off the commit order must not use it)
+        self.post_yield = post_yield
         self.cond = threading.Condition()
         self.current = None          # cid allowed to run, or None (scheduler's turn)
         self.tl = threading.local()
@@ -89,7 +92,7 @@ class Scheduler:
     def run(self, programs, schedule, max_steps=4000):
         """programs: {cid: (prepare, ops, execute)}; schedule: iterable of cids (cycled)"""
         self.rec.on_action = self.on_action
-        self.rec.on_post = self.on_action
+        self.rec.on_post = self.on_action if self.post_yield else None
         threads = {}
         try:
             for cid, (prepare, ops, execute) in programs.items():
